@@ -128,7 +128,7 @@ LIVE_SPEC = [
     ["c.txt.gz", "f", None], ["run.sh", "f", None, 0o755],
 ]
 LIVE_SELS = ["/", "/readme.txt", "/empty.txt", "/big.bin", "/page.html", "/dir", "/dir/sub/deep.txt", "/dir/a b.txt", "/box.mbox",
-             "/box.mbox|/MBOX-MESSAGE/1", "/arc.zip", "/arc.zip/in/x.txt", "/arc.zip/big.dat", "/c.txt.gz", "/run.sh", "/nosuch",
+             "/box.mbox|/MBOX-MESSAGE/1", "/arc.zip", "/arc.zip/in/x.txt", "/arc.zip/big.dat", "/arc.zip/big.txt.gz", "/c.txt.gz", "/run.sh", "/nosuch",
              "/dir/../readme.txt", "/URL:http://example.org/"]
 
 
@@ -142,6 +142,12 @@ def _check_live(case, ctx):
             e[2] = sites.gz_text("compressed text\n" * 300)
         elif e[0] == "run.sh":
             e[2] = sites.SCRIPT
+        elif e[0] == "arc.zip":
+            # a compressed member that is large both packed and unpacked (1 MiB of bytes no compressor shrinks): a server
+            # that feeds the decompressor must also drain it
+            import hashlib
+            junk = b"".join(hashlib.sha256(b"%d" % i).digest() for i in range(32768)).decode("latin-1")
+            e[2] = {"members": list(e[2]["members"]) + [["big.txt.gz", "f", sites.gz_text(junk), {}]]}
     base, root = world.build(spec, "c03live")
     srv = None
     fails = []
